@@ -423,16 +423,55 @@ func liveBody(c *nd.Ctx) nd.Result {
 // or a stored stanza around; the second call is judged like the first.
 func reuseBody(c *nd.Ctx) nd.Result { liveSource = false; return shapesBodyN(c, 2) }
 
+// seqBody: the judged call is preceded by another call on the same session,
+// with its own entry point, element name and namespace: whatever the first
+// call leaves behind in the session (the state of the token rewriting, buffered
+// output, held locks) must not show in the second call's element.
+var seqFirst []string // entry points of the first call; nil: not a sequence run
+
+var seqFirstQuick = []string{"Send", "TokenWriter", "Encode(struct)", "EncodeElement(Marshaler)", "EncodeIQ", "SendMessageElement"}
+
+func seqBody(first []string) nd.Body {
+	return func(c *nd.Ctx) nd.Result {
+		liveSource = false
+		seqFirst = first
+		defer func() { seqFirst = nil }()
+		return shapesBodyN(c, 1)
+	}
+}
+
 func shapesBodyN(c *nd.Ctx, calls int) (res nd.Result) {
-	role := c.Choose(4, "stream") // 0 client-to-server, 1 server-to-server initiated by us, 2 server-to-server received, 3 the same established by the default negotiator (addresses learned from the peer's header)
+	nroles := 4
+	if seqFirst != nil && len(seqFirst) < len(forms) {
+		nroles = 2 // quick tier of the sequences part
+	}
+	role := c.Choose(nroles, "stream") // 0 client-to-server, 1 server-to-server initiated by us, 2 server-to-server received, 3 the same established by the default negotiator (addresses learned from the peer's header)
 	s2s := role != 0
 	form := forms[c.Choose(len(forms), "form")]
 	sh := shape{name: names[c.Choose(len(names), "name")], ns: spaces[c.Choose(len(spaces), "namespace")]}
 	sh.id = c.Choose(3, "id")
 	sh.from = c.Choose(3, "from")
-	sh.xmlnsAttr = c.Choose(2, "xmlns-attribute") == 1
-	sh.nested = c.Choose(2, "nested-stanza-named-child") == 1
-	sh.payload = c.Choose(3, "payload")
+	var sh1 shape
+	form1 := ""
+	if seqFirst == nil {
+		sh.xmlnsAttr = c.Choose(2, "xmlns-attribute") == 1
+		sh.nested = c.Choose(2, "nested-stanza-named-child") == 1
+		sh.payload = c.Choose(3, "payload")
+	} else {
+		sh.payload = 1
+		form1 = seqFirst[c.Choose(len(seqFirst), "first-call-form")]
+		sh1 = shape{name: names[c.Choose(len(names), "first-call-name")], ns: spaces[c.Choose(len(spaces), "first-call-namespace")], payload: 1}
+		sh1.nested = c.Choose(2, "first-call-nested-stanza-named-child") == 1
+		if nroles == 4 {
+			sh1.xmlnsAttr = c.Choose(2, "first-call-xmlns-attribute") == 1
+		}
+		switch sh1.name {
+		case "iq":
+			sh1.typ = "result"
+		case "message", "presence":
+			sh1.typ = "error"
+		}
+	}
 	// reply types so that the correlated variants do not block
 	switch sh.name {
 	case "iq":
@@ -469,6 +508,19 @@ func shapesBodyN(c *nd.Ctx, calls int) (res nd.Result) {
 	if liveSource {
 		tag = "live-source:"
 		desc += " (readers are live decoders)"
+	}
+	if seqFirst != nil {
+		if form == "Encode(WriterTo)" || form1 == "Encode(WriterTo)" {
+			return nd.Result{Skip: true} // the known finding of the shapes part (nothing is flushed)
+		}
+		var err1 error
+		ok1 := false
+		if p1 := nd.Catch(func() { err1, ok1 = doTransmit(s, form1, sh1, streamNS) }); p1 != nil || err1 != nil || !ok1 {
+			return nd.Result{Skip: true} // the first call by itself is the business of the shapes part
+		}
+		tag = "after-another-call:"
+		desc += fmt.Sprintf(" (after a first call %s name=%s ns=%q nested=%v xmlns-attr=%v)", form1, sh1.name, sh1.ns, sh1.nested, sh1.xmlnsAttr)
+		before = rw.Out.Len()
 	}
 	if calls == 1 {
 		pn = nd.Catch(func() { terr, applicable = doTransmit(s, form, sh, streamNS) })
@@ -581,7 +633,8 @@ func init() {
 			b := 4 * time.Minute
 			return append([]drv.Part{{Name: "shapes", Body: shapesBody, CutDepth: 3, Budget: b}, {Name: "closed-writer", Desc: "a token writer used again after Close", Body: closedWriterBody, CutDepth: 2, Workers: 2, Budget: b},
 				{Name: "live-sources", Desc: "the readers and values handed to the entry points produce their tokens from a live xml.Decoder (character data valid until the next token only)", Body: liveBody, CutDepth: 3, Budget: b},
-				{Name: "reused-arguments", Desc: "two consecutive calls given the very same start element / token list values; the second call is judged", Body: reuseBody, CutDepth: 3, Budget: b}}, concurrentParts(tier)...)
+				{Name: "reused-arguments", Desc: "two consecutive calls given the very same start element / token list values; the second call is judged", Body: reuseBody, CutDepth: 3, Budget: b},
+				{Name: "sequences", Desc: "the judged call follows another call on the same session (its own entry point, element name, namespace, nested stanza-named child, explicit declaration): state left behind by the first call must not show", Body: seqBody(map[bool][]string{true: forms, false: seqFirstQuick}[tier == "thorough"]), CutDepth: 4, Budget: b}}, concurrentParts(tier)...)
 		},
 	})
 }
